@@ -19,6 +19,15 @@ var C12Patterns = []C12Pattern{
 	{"configuration", `(?im)^[\w.\-@/:]{1,63}\([\+\w.\-@/:+]{0,32}\)#$`},
 	{"enablepass", `(?im)^(?:enable\s){0,1}password:\s?$`},
 	{"hashsuffix", `#$`},
+	// ios tclsh level; junos-like tree (patterns as in assets/platforms/juniper_junos.yaml)
+	{"tclsh", `(?im)^([\w.\-@/+>:]+\(tcl\)[>#]|\+>)$`},
+	{"jexec", `(?im)^({\w+:\d}\n){0,1}[\w\-@()/:\.]{1,63}>\s?$`},
+	{"jconf", `(?im)^({\w+:\d}\[edit\]\n){0,1}[\w\-@()/:\.]{1,63}#\s?$`},
+	{"jshell", `(?im)^.*[%$]\s?$`},
+	{"jroot", `(?im)^.*root@[[:ascii:]]*?:?[[:ascii:]]*?[%#]\s?$`},
+	{"jpass", `(?im)^[pP]assword:\s?$`},
+	// an interim prompt (WithInterimPromptPattern) of a multi-line input
+	{"interim", `(?m)^\.\.\.$`},
 }
 
 // C12Index returns the table index of a pattern name (-1 when absent).
